@@ -43,6 +43,10 @@ def work(arg):
                         continue
                     cut = 1 + (i + len(new[i])) % (len(new[i]) - 1)
                     new[i] = new[i][:cut] + " " + new[i][cut:]
+                elif op == "head1":
+                    new[i] = new[i][:1]
+                elif op == "drop_last":
+                    new[i] = new[i][:-1]
                 elif op == "swap_next":
                     j = next((x for x in sig if x > i), None)
                     if j is None:
